@@ -183,6 +183,14 @@ def toSTHRfc (treeSize timestamp : Nat) (root : Bytes) (sig : Bytes) : Option ST
     | none => none
   else none
 
+/-! ## trillian/util/log_leaf.go: the extra data CTFE stores for an accepted submission -/
+
+/-- `ExtraDataForChain(cert, chain, isPrecert)`: `tls.Marshal(ct.PrecertChainEntry{cert, chain})` for a precertificate,
+`tls.Marshal(ct.CertificateChain{chain})` otherwise; `BuildLogLeaf` stores exactly this (its `chainHash` is nil). -/
+def extraDataForChain (isPrecert : Bool) (cert : Bytes) (chain : List Bytes) : Except Err Bytes :=
+  if isPrecert then enc tPrecertChainEntry (.struct [asn1CertVal cert, .list (chain.map asn1CertVal)])
+  else enc tCertificateChain (.struct [.list (chain.map asn1CertVal)])
+
 /-! ## the JSON API messages: how encoding/json maps the Go field types of types.go -/
 
 /-- `uint64`/`int64`/`Version` → JSON number; `[]byte` → base64 string (encoding/json); `string` → a string the caller
